@@ -182,6 +182,11 @@ func scenarioC18(r *Run) {
 				m := &bmember{Tag: fmt.Sprintf("c%d.%d.%d", c, e, i)}
 				id := exoticIDs[g.Int("id", len(exoticIDs))]
 				params := fmt.Sprintf(`{"t":%q}`, m.Tag)
+				if g.Chance("bigparams", 0.04) {
+					// a request body far beyond any buffer or "reasonable" limit
+					params = fmt.Sprintf(`{"t":%q,"pad":%q}`, m.Tag, strings.Repeat("p", 66000+g.Int("padlen", 400000)))
+					r.Probe("large-http-request")
+				}
 				switch g.Weighted("bkind", []int{8, 3, 2, 3}) {
 				case 0:
 					m.Kind, m.ID = mCall, id
